@@ -83,13 +83,15 @@ def cases(tier, seed):
             ("cases", True, "farmer"), ("cases", 3, "none"),
             ("mix", False, "farmer"), ("mix", True, "none"),
             ("mix", 3, "const"), ("mix2", False, "none"),
-            ("mix2", True, "const"), ("grid", False, "farmer-override"),
+            ("mix2", True, "const"), ("grid", 3, "const0"),
+            ("cases", False, "farmer0"), ("grid", False, "farmer-override"),
             ("cases", False, "farmer-override"),
         ]
     else:
         variants = list(itertools.product(
             ("grid", "cases", "mix", "mix2"), (False, True, 3),
-            ("none", "const", "farmer", "farmer-override")))
+            ("none", "const", "farmer", "farmer-override", "const0",
+             "farmer0")))
     for n in range(1, nmax + 1):
         reqs = [("batchsize", s) for s in range(1, n + 2)]
         reqs += [("num_batches", k) for k in range(1, n + 3)]
@@ -133,11 +135,14 @@ def check_case(case):
     constants, resources = {}, {}
     if const != "none":
         constants = {"k": 7}
+    if const in ("const0", "farmer0"):
+        # (falsy, but perfectly good constants)
+        constants = {"k": 0, "flag": False}
     farmer = const.startswith("farmer")
     # constants given for this run only override the farmer's stored ones
     override = {"k": 5} if const == "farmer-override" else None
     if farmer:
-        resources = {"r": 9}
+        resources = {"r": 0 if const == "farmer0" else 9}
     f = xfn.make_fn(argnames + sorted(constants) + sorted(resources),
                     kind="num", name="f07")
 
@@ -273,7 +278,7 @@ def check_case(case):
     # ---- the farmer's stored constants are changed and the same Crop object
     # is sown again: the batches hold what a direct run passes *now* ---------
     if farmer and case.get("resow"):
-        runner.constants = {"k": 8}
+        runner.constants = dict(constants, k=8)
         runner.resources = {"r": 10}
         with xfn.CallLog() as direct2:
             direct_run()
